@@ -52,9 +52,17 @@ type Caller struct {
 	Opts *sqlh.Opts `json:"opts,omitempty"`
 }
 
+// Round is one earlier batch on the same DB: plain Query callers, combined by the batch function; Fail = the
+// server answers every SELECT of the round with an error (fault injection), so the batch fails as a whole.
+type Round struct {
+	Filters []sqlh.Filter `json:"filters"`
+	Fail    bool          `json:"fail,omitempty"`
+}
+
 type Case struct {
 	Table    string        `json:"table"`
 	Contents [][]CV        `json:"contents"`
+	Before   []Round       `json:"before,omitempty"` // history: batches run on the same DB before the callers below
 	Filters  []sqlh.Filter `json:"filters"`
 	Callers  []Caller      `json:"callers,omitempty"` // parallel to Filters; missing = Query without options
 	Origin   string        `json:"origin"`
@@ -418,6 +426,19 @@ func genCase(g *sqlh.Gen) Case {
 			}
 		}
 	}
+	// a history: one to three earlier batches on the same DB over (a shuffled part of) the same filters, most of
+	// them failing -- whatever a batch leaves behind in the DB's batch function must not show in the next one
+	if g.R.Chance(12) {
+		for n := 1 + g.R.Intn(3); n > 0; n-- {
+			rd := Round{Fail: g.R.Chance(65)}
+			for _, i := range perm(g, len(c.Filters)) {
+				if len(rd.Filters) < 2 || g.R.Chance(75) {
+					rd.Filters = append(rd.Filters, c.Filters[i])
+				}
+			}
+			c.Before = append(c.Before, rd)
+		}
+	}
 	return c
 }
 
@@ -440,7 +461,14 @@ type callResult struct {
 	Err  string
 }
 
+// preResult: what one round of the history showed (per caller: alone, in the batch).
+type preResult struct {
+	single  []callResult
+	batched []callResult
+}
+
 type runResult struct {
+	pre        []preResult
 	single     []callResult
 	singleLog  []fakesql.Entry
 	batched    []callResult
@@ -576,6 +604,45 @@ func runCase(c Case) (res runResult, fatal string) {
 		res.single = append(res.single, r)
 	}
 	res.singleLog = env.Srv.Statements()
+	// the history: earlier batches on the same DB (and the same batch function), some of them failing
+	plain := mkCall(t, Caller{})
+	for _, rd := range c.Before {
+		var pr preResult
+		fs := make([]sqlgen.Filter, len(rd.Filters))
+		for i, f := range rd.Filters {
+			fs[i] = f.Go(env.Pool)
+			if fs[i] == nil {
+				fs[i] = sqlgen.Filter{}
+			}
+			var rows []interface{}
+			e, p := sqlh.Safely(func() error {
+				var err error
+				rows, err = plain(ctx, env.DB, fs[i])
+				return err
+			})
+			pr.single = append(pr.single, classify(e, p, idx(rows)))
+		}
+		if len(fs) > 0 {
+			if rd.Fail {
+				env.Srv.FailNext = func(kind, _ string) error {
+					if kind == "query" {
+						return fmt.Errorf("injected failure of the batched SELECT")
+					}
+					return nil
+				}
+			}
+			ds := make([]*sqlgen.DB, len(fs))
+			for i := range ds {
+				ds[i] = env.DB
+			}
+			br := sqlh.RunBatchedCalls(ds, t, fs, len(fs), nil)
+			env.Srv.FailNext = nil
+			for i := range fs {
+				pr.batched = append(pr.batched, classify(br.Errs[i], br.Panics[i], idx(br.Rows[i])))
+			}
+		}
+		res.pre = append(res.pre, pr)
+	}
 	env.Srv.ResetLog()
 	// on a batching context, concurrently
 	dbs := make([]*sqlgen.DB, len(filters))
@@ -714,6 +781,36 @@ func main() {
 		if bad {
 			run.Fail(idx, "c10-unknown-row-returned", "a caller received a row that is not in the table", c)
 			continue
+		}
+
+		// ---- oracle on the history: a failed batch answers every caller with its error, any other batch
+		// answers every caller with its own rows -- whatever happened on the DB before ----
+		for k, rd := range c.Before {
+			if k >= len(res.pre) || len(res.pre[k].batched) != len(rd.Filters) {
+				continue
+			}
+			for i, f := range rd.Filters {
+				b, sg := res.pre[k].batched[i], res.pre[k].single[i]
+				fj, _ := json.Marshal(f)
+				switch {
+				case rd.Fail && b.Code != 3:
+					run.Fail(idx, "c10-failed-batch-answered-a-caller", fmt.Sprintf("round %d caller %d filter %s: the batched SELECT failed, the caller got %+v", k, i, fj, b), c)
+				case rd.Fail:
+					run.Hist("history:caller-of-a-failed-batch-got-the-error")
+				case sameResult(b, sg):
+				default:
+					if _, tr := sqlh.Transparent(t, f); tr {
+						run.Fail(idx, "c10-batched-rows-differ", fmt.Sprintf("history round %d caller %d filter %s: alone %+v, with batching %+v", k, i, fj, sg, b), c)
+					} else {
+						run.Hist("oracle:c10-batch-matcher-go-type")
+					}
+				}
+			}
+			if rd.Fail {
+				run.Hist("history:failed-batch")
+			} else {
+				run.Hist("history:earlier-batch")
+			}
 		}
 
 		// ---- oracle ----
